@@ -81,6 +81,24 @@ CHECKS.update({
   text="All token strings of length <=4 (quick) / <=5 (thorough) over a 26-token alphabet, joined with and without spaces: the reference recogniser decides expression vs. non-expression; non-expressions and XPath type errors must error, expressions must evaluate to the reference value. ~2000 generated ASTs (every triple of binary operators in both association shapes, unary minus/union vs. every operator, '*' everywhere, reserved-looking names, numeral/literal forms, nested predicates, filter paths, calls) rendered 6 ways on 3 documents against the reference evaluation of the generating tree; ~400 hand-listed lexical edge cases.",
   note="Six open known findings, all in the generated lexer/grammar (gogll not available to regenerate): operator names reserved, '1.', '_' name start, whitespace inside QNames, Unicode spaces as whitespace, backslash escapes in literals. An error at the first Exec counts as rejection.",
   ref="2 C08"),
+ "C09": dict(
+  level="fault_enumeration",
+  technique="bounded-exhaustive enumeration of abstract documents x serialisations through the real reader, with every truncation point, unbalancing tag mutation and reader deviation (short read / I/O error at every byte offset) enumerated",
+  text="Every XML-serialisable forest with <=3/4 nodes x 6 namespace schemes x 192 serialisations (text as literal/char-refs/CDATA/split, empty-element tags, XML declaration and four charsets with harness-transcoded bytes, DOCTYPE, prolog/epilog content): the cursor tree is compared with the abstract document including one owned namespace node per in-scope binding; every proper prefix that cuts markup or the document element, every unbalancing tag deletion/swap and a list of malformed inputs must error; one short read / one I/O error at every byte offset.",
+  note="Whitespace-only top-level text and truncation exactly between prolog items are not judged. Go's encoding/xml decides well-formedness details beyond tag balance.",
+  ref="2 C09"),
+ "C16": dict(
+  level="fault_enumeration",
+  technique="bounded-exhaustive enumeration of JSON values x whitespace regimes through the real reader, with every truncation point, structural-byte mutation and reader deviation enumerated, judged by an independent JSON recogniser",
+  text="Every JSON value with <=4/5 tokens and depth <=3 over unusual keys and 6/10 scalars, three whitespace regimes, concatenated top-level values: tree vs. direct recursive mapping; every proper prefix and every single structural-byte deletion/duplication: error iff not a complete value sequence; one short read / one I/O error at every byte offset.",
+  note="Top-level values adjacent without whitespace are not judged.",
+  ref="2 C16"),
+ "C17": dict(
+  level="exploration",
+  technique="exhaustive enumeration of all tag-soup token strings up to a length bound through the real reader against an independent walk of the HTML5 parser's DOM",
+  text="Doctype + every token string of length <=4/5 over an 18-token tag-soup alphabet (two prefixes): cursor tree vs. independent recursive walk of html.Parse; deep/wide families; doctype requirement.",
+  note="golang.org/x/net/html is the HTML5 algorithm the statement names (trusted).",
+  ref="2 C17"),
 })
 
 NOT_YET = {}
